@@ -210,7 +210,7 @@ pub static C04: E1Prop = E1Prop {
     tape_len: 600,
     assumptions: &["digits are represented by 0, 1, 9 (both regular expressions of the quote rewrite treat all digits alike)", "an unknown escape `\\c` denotes `c` (Lua 5.1 rule, which full_moon accepts in every syntax)"],
     extra: Some(crate::enums::c04_extra),
-    exclude: None,
+    exclude: Some(|c| if oracle::lone_cr_next_to_break(&c.source) { Some("KF-C04-lone-cr-before-crlf") } else { None }),
     raw_oracle: None,
     t2_cases: (20_000, 400_000),
 };
@@ -376,7 +376,7 @@ fn typed_local_cut_by_range(case: &Case) -> bool {
 pub static C09: E1Prop = E1Prop {
     id: "C09",
     oracle: |c, o, _| oracle::c09(c, o),
-    rule: "T1: generated programs x ranges derived from the statement spans of the trusted parse (exactly one statement at any depth, a run of statements, mid-token, nudged by 0-4 bytes, open-ended on either side, empty / inverted, whole file, random offsets). Oracle: statements are classified inside / outside by the documented rule (a statement ending exactly one byte past the end bound is left unclaimed: README and implementation disagree there); (1) the text before the first and after the last affected statement is unchanged, (2) every outside statement keeps its source text piecewise around affected descendants, located at the same semantic-token position, (3) every outermost inside statement has the same text as in a whole-file run (aligned through the token sequence T), (4) if no statement is inside, the text up to the last token is unchanged. Non-trivial: at least one statement inside and one outside, the inside one compared against the whole-file run, and the output differs from the input.",
+    rule: "T1: generated programs (a third of them with `-- stylua: ignore` directives and regions) x ranges derived from the statement spans of the trusted parse (exactly one statement at any depth, a run of statements, mid-token, nudged by 0-4 bytes, open-ended on either side, empty / inverted, whole file, random offsets). Oracle: statements are classified inside / outside by the documented rule (a statement ending exactly one byte past the end bound is left unclaimed: README and implementation disagree there); (1) the text before the first and after the last affected statement is unchanged, (2) every outside statement keeps its source text piecewise around affected descendants, located at the same semantic-token position, (3) every outermost inside statement has the same text as in a whole-file run (aligned through the token sequence T), (4) if no statement is inside, the text up to the last token is unchanged. Non-trivial: at least one statement inside and one outside, the inside one compared against the whole-file run, and the output differs from the input.",
     gen_case: gen_c09,
     quick_cases: 200_000,
     thorough_cases: 2_000_000,
@@ -398,34 +398,18 @@ fn gen_c12(t: &mut Tape, l: &mut Vec<&'static str>) -> Option<Case> {
     Some(Case::new(src, cfg))
 }
 
-/// Known finding KF-C12-ignore-region: requires inside an ignore region are re-ordered. Excluded: programs in which
-/// a require group of two or more members has a member inside a region (a region elsewhere in the file is in the domain).
-fn c12_region_finding(c: &Case) -> Option<&'static str> {
-    if !c.cfg.sort_requires || !c.source.contains("stylua: ignore start") {
-        return None;
-    }
-    let ast = crate::engine::guarded(|| crate::norm::parse(&c.source, c.cfg.syntax)).ok()?.ok()?;
-    let json = serde_json::to_value(ast.nodes()).ok()?;
-    let tops = crate::model::top_statements(&json);
-    if crate::model::region_touches_group(&tops) {
-        Some("KF-C12-ignore-region")
-    } else {
-        None
-    }
-}
-
 pub static C12: E1Prop = E1Prop {
     id: "C12",
     oracle: |c, o, _| oracle::c12(c, o),
-    rule: "T0 (corpus x catalogue, sort_requires on in two catalogue entries) + T1: generated top levels interleaving `local NAME = require(...)` / `game:GetService(...)` (14-name pool with duplicates, mixed case and common prefixes; string / path / sugar / multi-line / indexed / concatenated arguments; `:: T`; `;`; trailing and leading comments) with other statements, multi-name locals, blank lines and `-- stylua: ignore`, sort_requires on (80 %) and off. Oracle: an independent model of the README rule (groups = maximal runs of same-kind requires on adjacent lines; stable sort by NAME in byte order; a group with an ignored or out-of-range member is left alone) gives the expected permutation; the per-statement normal forms of the output must equal the permuted normal forms of the input, the last statement is unchanged, and the comment census is unchanged. Non-trivial: at least two require statements and the expected permutation is not the identity (or the option is off).",
+    rule: "T0 (corpus x catalogue, sort_requires on in two catalogue entries) + T1: generated top levels interleaving `local NAME = require(...)` / `game:GetService(...)` (14-name pool with duplicates, mixed case and common prefixes; string / path / sugar / multi-line / indexed / concatenated arguments; `:: T`; `;`; trailing and leading comments) with other statements (incl. statements beginning with `(` after a `;`), multi-name locals, blank lines, same-line leading block comments, `-- stylua: ignore` and start / end regions, sort_requires on (80 %) and off. Oracle: an independent model of the README rule (groups = maximal runs of same-kind requires on adjacent lines; stable sort by NAME in byte order; a group with an ignored or out-of-range member is left alone) gives the expected permutation; the per-statement normal forms of the output must equal the permuted normal forms of the input, the last statement is unchanged, and the comment census is unchanged. Non-trivial: at least two require statements and the expected permutation is not the identity (or the option is off).",
     gen_case: gen_c12,
     quick_cases: 100_000,
     thorough_cases: 2_000_000,
     use_t0: true,
     tape_len: 300,
-    assumptions: &["programs in which a require group of two or more members has a member inside a `-- stylua: ignore start/end` region are excluded: require sorting does not honour regions (known finding KF-C12-ignore-region, DESIGN D20); regions elsewhere in the file are in the domain"],
+    assumptions: &["a require group with a member inside a `-- stylua: ignore start` / `end` region is expected to stay as written, like a group with a `-- stylua: ignore` member"],
     extra: None,
-    exclude: Some(c12_region_finding),
+    exclude: None,
     raw_oracle: None,
     t2_cases: (0, 0),
 };
@@ -661,7 +645,7 @@ pub static C07: E1Prop = E1Prop {
         }
         v
     },
-    rule: "T0 (corpus x catalogue incl. width 1 and usize::MAX) + T1: generated valid programs under extreme widths, every range form (any order, empty, out of bounds, open), verify mode on/off, ignore directives; invalid inputs by truncation / splicing / slice deletion of generated programs; + scaling families P(d) for every recursive construct. Oracle: no panic; Ok exactly when the trusted parser accepts the input, ParseError exactly when it rejects it; formatter ticks (deterministic node-visit counter, hook H1) <= max(10^6, 5000 x input bytes); for families the tick growth ratio ticks(d+1)/ticks(d) over the top third of depths stays below 1.6. Non-trivial: every evaluated case (each one exercises the totality claim).",
+    rule: "T0 (corpus x catalogue incl. width 1 and usize::MAX) + T1: generated valid programs under extreme widths, every range form (any order, empty, out of bounds, open), verify mode on/off, ignore directives; invalid inputs by truncation / splicing / slice deletion of generated programs and by cutting at a line start and appending an incomplete construct (16 tails, some of which full_moon accepts by dropping tokens); + scaling families P(d) for every recursive construct. Oracle: no panic; Ok exactly when the trusted parser accepts the input, ParseError exactly when it rejects it; formatter ticks (deterministic node-visit counter, hook H1) <= max(10^6, 5000 x input bytes); for families the tick growth ratio ticks(d+1)/ticks(d) over the top third of depths stays below 1.6. Non-trivial: every evaluated case (each one exercises the totality claim).",
     gen_case: gen_c07,
     quick_cases: 400_000,
     thorough_cases: 4_000_000,
